@@ -208,3 +208,33 @@ func verifRescanWhileRunnerWrites() {
 // Verif_C14_rescan_while_runner_writes: see verifRescanWhileRunnerWrites (atomicity of the record
 // with respect to the restarted daemon's scan).
 func Verif_C14_rescan_while_runner_writes() { verifRescanWhileRunnerWrites() }
+
+// Verif_C14_stdout_size_vs_state_writer: the output writer records a new output size (saveStdoutSize, as
+// STDoutWriter.Write does for every chunk) while another writer of the same record (another goroutine
+// or process) changes state and detail, every schedule within the pre-emption bound: the record ends up
+// with the new size AND the other writer's state and detail.
+func Verif_C14_stdout_size_vs_state_writer() {
+	dir := verifapi.TempDir()
+	file := dir + "/status"
+	size := verifapi.Int64()
+	verifapi.Assume(verifapi.All(size > 3, size < 1000))
+	init := &StatusFileData{State: WorkStateRunning, Detail: "step 1", StdoutSize: 3, WorkType: "cmd"}
+	verifapi.Assert("initial-save", init.Save(file) == nil)
+	verifapi.ExploreSchedules(2 + verifapi.Tier())
+	done := make(chan error, 2)
+	go func() { done <- saveStdoutSize(dir, size) }()
+	go func() {
+		sfd := &StatusFileData{}
+		done <- sfd.UpdateFullStatus(file, func(st *StatusFileData) {
+			st.State, st.Detail = WorkStateSucceeded, "step 2"
+		})
+	}()
+	e1, e2 := <-done, <-done
+	verifapi.ExploreSchedules(0)
+	verifapi.Cover("both-writers-finished")
+	verifapi.Assert("no-operation-fails", verifapi.All(e1 == nil, e2 == nil))
+	final := &StatusFileData{}
+	verifapi.Assert("final-load", final.Load(file) == nil)
+	verifapi.Assert("output-size-recorded", final.StdoutSize == size)
+	verifapi.Assert("other-writer-s-update-not-lost", verifapi.All(final.State == WorkStateSucceeded, final.Detail == "step 2", final.WorkType == "cmd"))
+}
